@@ -46,7 +46,7 @@ def cases(tier, seed):
                 for (eq_type, dx) in EQS:
                     for it in ("none", "scale"):
                         for ot in ("none", "inputs", "param"):
-                            for shared in ((False, True, "int") if o == 3 else (False,)):
+                            for shared in ((False, True, "int", "int-1") if o == 3 else (False,)):
                                 for bare in ((False, True) if (it == "none" and ot != "param") else (False,)):
                                     for tshape in (("0d", "1") if eq_type == "ODE" else ("1",)):
                                         i += 1
@@ -115,15 +115,18 @@ def run_pinn(case):
     slices = (jnp.s_[0:2], jnp.s_[2:3]) if case["shared"] else None
     if case["shared"] == "int":
         slices = (jnp.s_[0:2], jnp.s_[2])  # an integer selects one output; the component axis must survive
+    if case["shared"] == "int-1":
+        slices = (jnp.s_[0:2], jnp.s_[-1])  # the last output, counted from the end
     us = jinns.utils.create_PINN(key, eqx_list(n_in, case["hidden"], o, case["act"]), eq_type, dx, input_transform=it, output_transform=ot, shared_pinn_outputs=slices)
     us = us if case["shared"] else [us]
     site = "PINN"
     v = []
     s = 1.7
     for ui, u in enumerate(us):
-        nnp = u.init_params()
-        if case["shared"] and ui == 1 and not eqx.tree_equal(nnp, us[0].init_params()):
+        if case["shared"] and ui == 1 and not eqx.tree_equal(u.init_params(), us[0].init_params()):
             v.append(V(site, "shared_output_networks_do_not_share_parameters", ""))
+        # evaluated at parameters that differ from the creation-time ones
+        nnp = jax.tree_util.tree_map(lambda x: x * 1.1 + 0.01, u.init_params())
         params = Params(nn_params=nnp, eq_params={"s": jnp.asarray(s)})
         arg_p = nnp if case["bare"] else params
         for j in range(3):
@@ -176,7 +179,7 @@ def run_spinn(case):
     key = jax.random.PRNGKey(case["key"])
     d, r, m, B, eq_type = case["d"], case["r"], case["m"], case["B"], case["eq_type"]
     u = jinns.utils.create_SPINN(key, d, r, ((eqx.nn.Linear, 1, 3), (jnp.tanh,), (eqx.nn.Linear, 3, r * m)), eq_type, m)
-    nnp = u.init_params()
+    nnp = jax.tree_util.tree_map(lambda x: x * 1.1 + 0.01, u.init_params())  # not the creation-time parameters
     Z = np.array([[0.3 + 0.4 * i - 0.15 * dd + 0.05 * i * dd for dd in range(d)] for i in range(B)])
     params = Params(nn_params=nnp, eq_params={"s": jnp.asarray(1.0)})
     v = []
@@ -222,11 +225,12 @@ def run_hyper(case):
     us = us if case["shared"] else [us]
     v = []
     for ui, u in enumerate(us):
-        params = Params(nn_params=u.init_params(), eq_params=eqp)
+        hyper_p = jax.tree_util.tree_map(lambda x: x * 1.1 + 0.01, u.init_params())
+        params = Params(nn_params=hyper_p, eq_params=eqp)
         inner_leaves = jax.tree_util.tree_leaves(u.params)
         sizes = [int(np.prod(l.shape)) for l in inner_leaves]
         hin = np.concatenate([np.asarray(eqp[k], dtype=float).reshape(-1) for k in hp])
-        hout = np_mlp(u.init_params(), hin, "tanh")
+        hout = np_mlp(hyper_p, hin, "tanh")
         if hout.shape != (sum(sizes),):
             v.append(V("HYPERPINN", "hyper_network_output_size_differs_from_inner_parameter_count", f"{hout.shape} vs {sum(sizes)}"))
             break
